@@ -474,7 +474,10 @@ class EvolutionarySolver(RandomSearchSolver):
         scores_hof = list(zip(*self.hof))[0]
 
         depth_pop = [circuit.depth for (_, circuit) in population]
-        depth_hof = [circuit.depth for (_, circuit) in self.hof]
+        # the hall of fame may still have empty slots (np.inf, None) when n_hof exceeds the circuits seen so far
+        depth_hof = [
+            circuit.depth for (_, circuit) in self.hof if circuit is not None
+        ]
 
         self.logs["population"].append(
             dict(
